@@ -144,7 +144,21 @@ func checkSortAndCycle(g map[string][]string) []Violation {
 	}
 	sort.Strings(names)
 	var first []string
-	for _, perm := range permutations(names) {
+	perms := permutations(names)
+	if len(names) >= 5 {
+		// 120 permutations x 29281 DAGs is too much: identity, reverse and the rotations
+		perms = nil
+		for r := 0; r < len(names); r++ {
+			p := append(append([]string(nil), names[r:]...), names[:r]...)
+			perms = append(perms, p)
+			rev := make([]string, len(p))
+			for i := range p {
+				rev[len(p)-1-i] = p[i]
+			}
+			perms = append(perms, rev)
+		}
+	}
+	for _, perm := range perms {
 		got := prunner.VerifSortTasks(tasks, perm)
 		if first == nil {
 			first = got
